@@ -224,7 +224,7 @@ class Recorder:
                 g = sys._getframe(2)
                 direct = (g.f_code.co_name in ('iter_errors', 'iter_decode', 'raw_decoder', '_validate_references')
                           and g.f_code.co_filename.endswith('schemas.py'))
-                rec.log.append(('call', 'd' if direct else 'c', validation, error))
+                rec.log.append(('call', 'd' if direct else 'c', validation, error, g.f_code.co_name))
             return orig(ctx_self, validation, error)
 
         raise_or_collect._verif_wrapped = True
@@ -271,13 +271,14 @@ def build_script(log: list, ids: Ids, canon: Callable[[Any], Any]) -> tuple[list
     anomalies: list[str] = []
     for ev in log:
         if ev[0] == 'call':
-            _, kind, _mode, err = ev
+            _, kind, _mode, err, caller = ev
             if kind == 'c':
                 steps.append(['c', ids.e(err_key(err))])
                 pending.append(err)
                 in_flush = False
             else:
-                steps.append(['d', ids.e(err_key(err))])
+                # the reference check finds nothing in a skip run (its input is filled by non-skip decoding only)
+                steps.append(['d', ids.e(err_key(err)), caller != '_validate_references'])
                 last_direct = err
         else:
             item = ev[1]
